@@ -156,3 +156,98 @@ Proof.
   - rewrite B, A, D, C. apply Refl.
 Qed.
 End Lib.
+
+(* ====================== a file with two includes, in either order ====================== *)
+Lemma NoDup_app_intro' {A} (l1 l2 : list A) :
+  NoDup l1 -> NoDup l2 -> (forall x, In x l1 -> In x l2 -> False) -> NoDup (l1 ++ l2).
+Proof.
+  induction l1 as [|x l1 IH]; intros H1 H2 Hd; simpl; [exact H2|].
+  inversion H1 as [|? ? Hx H1']; subst. constructor.
+  - intros Hin. apply in_app_or in Hin. destruct Hin as [Hin|Hin]; [contradiction|].
+    apply (Hd x); [left; reflexivity|exact Hin].
+  - apply IH; auto. intros y Hy1 Hy2. apply (Hd y); [right; exact Hy1|exact Hy2].
+Qed.
+
+Section Load.
+Variables splint quadS lnr : R -> R -> R.
+Variable isclose : R -> R -> bool.
+Notation lupd := (lib_update (K:=Rops) splint quadS lnr isclose).
+Notation loadR := (load (K:=Rops) splint quadS lnr isclose).
+
+Definition keys_nodup (l : @lib Rops) : Prop := NoDup (map fst l).
+
+Lemma lib_get_none_notin l g : lgetR l g = None -> ~ In g (map fst l).
+Proof.
+  induction l as [|[k x] l IH]; cbn [lib_get map fst]; [intros _ []|].
+  destruct (str_eqb k g) eqn:E; [discriminate|]. intros H [Hk|Hin]; [subst; rewrite str_eqb_refl in E; discriminate|exact (IH H Hin)].
+Qed.
+
+Lemma lib_set_keys l g v : keys_nodup l -> keys_nodup (lsetR l g v) /\ (forall k, In k (map fst (lsetR l g v)) <-> k = g \/ In k (map fst l)).
+Proof.
+  unfold keys_nodup. induction l as [|[k x] l IH]; intros Hn; cbn [lib_set map fst].
+  - split; [constructor; [intros []|constructor]|]. intros k. simpl. intuition congruence.
+  - inversion Hn as [|? ? Hnot Hn']; subst. destruct (str_eqb k g) eqn:E.
+    + apply str_eqb_eq in E. subst k. cbn [map fst]. split; [constructor; assumption|]. intros k. simpl. intuition congruence.
+    + destruct (IH Hn') as [A B]. cbn [map fst]. split.
+      * constructor; [|exact A]. intros Hin. apply B in Hin. destruct Hin as [->|Hin]; [rewrite str_eqb_refl in E; discriminate|contradiction].
+      * intros k'. simpl. rewrite B. intuition congruence.
+Qed.
+
+Lemma lib_update_keys other : forall self res, keys_nodup self -> lupd self other false = (res, None) -> keys_nodup res.
+Proof.
+  induction other as [|[g c] other IH]; intros self res Hn U; cbn [lib_update] in U.
+  - inversion U; subst. exact Hn.
+  - destruct (lgetR self g) as [mine|].
+    + destruct (corr_update _ _ _ _ mine c false) as [new [e|]]; [discriminate|]. apply (IH _ _ (proj1 (lib_set_keys self g new Hn)) U).
+    + apply (IH _ _ (proj1 (lib_set_keys self g c Hn)) U).
+Qed.
+
+Lemma own_groups_keys gs : forall acc l, keys_nodup acc -> own_groups (K:=Rops) gs acc = Ok l -> keys_nodup l.
+Proof.
+  induction gs as [|[g c] gs IH]; intros acc l Hn H; cbn [own_groups] in H.
+  - inversion H; subst. exact Hn.
+  - destruct (lgetR acc g) eqn:E; [discriminate|]. refine (IH _ _ _ H). unfold keys_nodup. rewrite map_app. cbn [map fst].
+    apply NoDup_app_intro'; [exact Hn|constructor; [intros []|constructor]|].
+    intros k Hk [<-|[]]. exact (lib_get_none_notin acc g E Hk).
+Qed.
+
+(* the keys of a loaded library are unique (a dict) *)
+Lemma load_keys f l : loadR f = Ok l -> keys_nodup l.
+Proof.
+  destruct f as [gs incs]. cbn [load]. destruct (own_groups gs []) as [own|e] eqn:Eo; [|discriminate]. cbn [bind].
+  assert (Ko : keys_nodup own) by (apply (own_groups_keys gs [] own); [constructor|exact Eo]).
+  clear Eo. revert own Ko l.
+  induction incs as [|i incs IH]; intros acc Ka l H.
+  - inversion H; subst. exact Ka.
+  - destruct (loadR i) as [li|e] eqn:Ei; [|discriminate]. cbn [bind] in H.
+    destruct (lupd acc li false) as [acc' [e|]] eqn:Eu; [discriminate|].
+    apply (IH acc' (lib_update_keys li acc acc' Ka Eu) l H).
+Qed.
+
+Lemma load_two gs f1 f2 : loadR (File gs [f1; f2]) =
+  bind (own_groups gs []) (fun own => bind (loadR f1) (fun l1 =>
+    match lupd own l1 false with
+    | (a1, None) => bind (loadR f2) (fun l2 => match lupd a1 l2 false with (a2, None) => Ok a2 | (_, Some e) => Raise e end)
+    | (_, Some e) => Raise e
+    end)).
+Proof. reflexivity. Qed.
+
+(* a file that includes two files: whichever is included first, every group ends with the same table and range
+   (whenever both orders load) *)
+Theorem two_includes_order_free gs f1 f2 L12 L21 :
+  (forall l g c, loadR f1 = Ok l -> lgetR l g = Some c -> NoDup (map fst (i_tab c))) ->
+  (forall l g c, loadR f2 = Ok l -> lgetR l g = Some c -> NoDup (map fst (i_tab c))) ->
+  loadR (File gs [f1; f2]) = Ok L12 -> loadR (File gs [f2; f1]) = Ok L21 ->
+  forall g, same_group (lgetR L12 g) (lgetR L21 g).
+Proof.
+  intros T1 T2 H12 H21. rewrite load_two in H12, H21.
+  destruct (own_groups gs []) as [own|e]; [|discriminate]. cbn [bind] in H12, H21.
+  destruct (loadR f1) as [l1|e1] eqn:E1; [|discriminate]. destruct (loadR f2) as [l2|e2] eqn:E2; [|discriminate]. cbn [bind] in H12, H21.
+  destruct (lupd own l1 false) as [a1 [e|]] eqn:U1; [discriminate|]. cbn [bind] in H12.
+  destruct (lupd a1 l2 false) as [a12 [e|]] eqn:U12; [discriminate|]. inversion H12; subst L12.
+  destruct (lupd own l2 false) as [a2 [e|]] eqn:U2; [discriminate|]. cbn [bind] in H21.
+  destruct (lupd a2 l1 false) as [a21 [e|]] eqn:U21; [discriminate|]. inversion H21; subst L21.
+  apply (lib_order_free splint quadS lnr isclose own l1 l2 a1 a12 a2 a21);
+    [exact (load_keys f1 l1 E1)|exact (load_keys f2 l2 E2)|intros g c; apply (T1 l1 g c eq_refl)|intros g c; apply (T2 l2 g c eq_refl)|assumption..].
+Qed.
+End Load.
